@@ -7,10 +7,16 @@
      divflux I i j                     (Div * flux)[i, j], Div = cell_faces^T
      face_flux I p bv f                (flux p + bound_flux bv)_f
      face_pressure I p bv f            (bound_pressure_cell p + bound_pressure_face bv)_f
-     interior I f c1 c2 s              f has exactly the entries (f,c1,s), (f,c2,-s), is not in
+     entries (Model/C12.v)             (row face, cell, flux sign, geometry face, geometry sign);
+                                       geo f c s = (f,c,s,f,s) is a stored entry of cell_faces, a
+                                       periodic pair contributes two entries with the partner's
+                                       cell and geometry (the pair is one face with two cells)
+     interior I f c1 c2 s              f has exactly the entries geo f c1 s, geo f c2 (-s), is not in
                                        the boundary list and not flagged Neumann/internal
-     boundary I f c s                  f has exactly the entry (f,c,s) and occurs once in the
+     boundary I f c s                  f has exactly the entry geo f c s and occurs once in the
                                        boundary list
+     periodic_pair I l r cl cr sl sr   l has exactly geo l cl sl and (l,cr,-sl,r,sr); r has exactly
+                                       geo r cr sr and (r,cl,-sr,l,sl); neither flagged Neumann
      korth I e                         K-orthogonality of the incidence entry e = (f,c,s):
                                        K_c (s n_f) x (x_f - x_c) = 0 and K_c (s n_f).(x_f - x_c) > 0
      linear a b x                      a.x + b *)
@@ -26,7 +32,11 @@ Theorem C12_discretize :
 Proof. exact discretize_components. Qed.
 Print Assumptions C12_discretize.
 
-(* Div * flux is symmetric — for EVERY incidence list, geometry, tensor field and flags. *)
+(* Div * flux is symmetric — for EVERY entry list, geometry, tensor field and flags.  Div is
+   taken over the same entry list as the flux: without a periodic map that is cell_faces^T; with
+   one it is the incidence of the identified grid (each periodic pair one face with two cells).
+   For the stored cell_faces^T of a periodic grid symmetry is checked per instance (exactly, in
+   Q, by the tie) and follows face by face from C12_periodic_pair below. *)
 Theorem C12_symmetric :
   forall (I : input R) (i j : nat), divflux I i j = divflux I j i.
 Proof. exact symmetric_theorem. Qed.
@@ -41,6 +51,22 @@ Theorem C12_single_valued :
       (rt_full I f * IZR s * ((if (c1 =? j)%nat then 1 else 0) - (if (c2 =? j)%nat then 1 else 0)))%R.
 Proof. exact single_valued_theorem. Qed.
 Print Assumptions C12_single_valued.
+
+(* Periodic pairs: both faces get the same transmissibility (harmonic mean over the two
+   cells), their rows are t*s*(e_own - e_partner), and the flux leaving one cell through l is
+   the flux entering the other through r (single-valued across the pair). *)
+Theorem C12_periodic_pair :
+  forall (I : input R) (l r cl cr : nat) (sl sr : Z),
+    periodic_pair I l r cl cr sl sr ->
+    rt_full I l = rt_full I r /\
+    (forall j : nat, entry (rflux I) l j =
+       (rt_full I l * IZR sl * ((if (cl =? j)%nat then 1 else 0) - (if (cr =? j)%nat then 1 else 0)))%R) /\
+    (forall j : nat, entry (rflux I) r j =
+       (rt_full I l * IZR sr * ((if (cr =? j)%nat then 1 else 0) - (if (cl =? j)%nat then 1 else 0)))%R) /\
+    (sl = 1%Z \/ sl = (-1)%Z -> sr = 1%Z \/ sr = (-1)%Z ->
+     forall j : nat, (IZR sl * entry (rflux I) l j + IZR sr * entry (rflux I) r j = 0)%R).
+Proof. exact periodic_pair_theorem. Qed.
+Print Assumptions C12_periodic_pair.
 
 (* Constant pressure, Dirichlet data equal to it, zero Neumann data: zero flux on every
    interior and every boundary face. *)
@@ -86,7 +112,7 @@ Print Assumptions C12_Mmatrix.
 Theorem C12_linear_exact_interior :
   forall (I : input R) (a : rvec) (b : R) (K0 : mat R) (f c1 c2 : nat) (s : Z) (bv : nat -> R),
     interior I f c1 c2 s -> s = 1%Z \/ s = (-1)%Z ->
-    korth I (f, c1, s) -> korth I (f, c2, (- s)%Z) ->
+    korth I (geo f c1 s) -> korth I (geo f c2 (- s)%Z) ->
     perm I c1 = K0 -> perm I c2 = K0 ->
     face_flux I (fun c : nat => linear a b (ccen I c)) bv f = (- rdot (rmulmv K0 (normal I f)) a)%R.
 Proof. exact linear_exact_interior. Qed.
@@ -96,7 +122,7 @@ Theorem C12_linear_exact_dirichlet :
   forall (I : input R) (a : rvec) (b : R) (K0 : mat R) (f c : nat) (s : Z) (bv : nat -> R),
     boundary I f c s -> s = 1%Z \/ s = (-1)%Z ->
     neu' R I f = false -> dir' R I f = true ->
-    korth I (f, c, s) -> perm I c = K0 ->
+    korth I (geo f c s) -> perm I c = K0 ->
     bv f = linear a b (fcen I f) ->
     face_flux I (fun c0 : nat => linear a b (ccen I c0)) bv f = (- rdot (rmulmv K0 (normal I f)) a)%R.
 Proof. exact linear_exact_dirichlet. Qed.
@@ -123,7 +149,7 @@ Print Assumptions C12_bound_pressure_dirichlet.
 Theorem C12_bound_pressure_neumann :
   forall (I : input R) (a : rvec) (b : R) (K0 : mat R) (f c : nat) (s : Z) (bv : nat -> R),
     boundary I f c s -> (f < nf I)%nat -> s = 1%Z \/ s = (-1)%Z -> is_neu I f = true ->
-    korth I (f, c, s) -> perm I c = K0 ->
+    korth I (geo f c s) -> perm I c = K0 ->
     bv f = (IZR s * - rdot (rmulmv K0 (normal I f)) a)%R ->
     face_pressure I (fun c0 : nat => linear a b (ccen I c0)) bv f = linear a b (fcen I f).
 Proof. exact bound_pressure_neumann. Qed.
@@ -145,7 +171,7 @@ Local Open Scope R_scope.
 Definition k2 : mat R := ((2, 0, 0), (0, 2, 0), (0, 0, 2)).
 Definition ex : input R :=
   {| dim := 1; nf := 3; nc := 2;
-     cf := [(0, 0, (-1)%Z); (1, 0, 1%Z); (1, 1, (-1)%Z); (2, 1, 1%Z)]%nat;
+     cf := [geo 0 0 (-1)%Z; geo 1 0 1%Z; geo 1 1 (-1)%Z; geo 2 1 1%Z]%nat;
      normal := fun _ => (1, 0, 0);
      fcen := fun f => (INR f, 0, 0);
      ccen := fun c => (INR c + 1 / 2, 0, 0);
@@ -157,7 +183,7 @@ Definition ex : input R :=
 
 Ltac korth_tac :=
   unfold korth, knvec, nvec, dvec, mulmv, vscale, vsub, cross; unfold dot, vx, vy, vz;
-  cbn [fst snd ex normal fcen ccen perm k2 tf tc ts INR]; split; [repeat f_equal; lra | lra].
+  cbn [fst snd ex normal fcen ccen perm k2 tf tc ts tg tgs geo INR]; split; [repeat f_equal; lra | lra].
 
 Example C12_nonvacuous :
   interior ex 1 0 1 1 /\ boundary ex 0 0 (-1) /\ boundary ex 2 1 1 /\
@@ -182,4 +208,25 @@ Proof.
     destruct He as [<-|[<-|[<-|[<-|[]]]]]; destruct He' as [<-|[<-|[<-|[<-|[]]]]];
       cbn; intros; try lia; try congruence. }
   repeat split.
+Qed.
+
+(* the same grid made periodic (face 0 ~ face 2): the entry list is what the transcribed
+   extension of the code produces, and faces 0, 2 form a periodic pair *)
+Definition exp : input R :=
+  {| dim := 1; nf := 3; nc := 2;
+     cf := [geo 0 0 (-1)%Z; geo 1 0 1%Z; geo 1 1 (-1)%Z; geo 2 1 1%Z;
+            (0, 1, 1%Z, 2, 1%Z); (2, 0, (-1)%Z, 0, (-1)%Z)]%nat;
+     normal := fun _ => (1, 0, 0);
+     fcen := fun f => (INR f, 0, 0);
+     ccen := fun c => (INR c + 1 / 2, 0, 0);
+     perm := fun _ => k2;
+     is_dir := fun _ => false; is_neu := fun _ => false; is_int := fun _ => false;
+     bnd := [] |}.
+
+Example C12_nonvacuous_periodic :
+  extend [(0, 0, (-1)%Z); (1, 0, 1%Z); (1, 1, (-1)%Z); (2, 1, 1%Z)]%nat [(0, 2)]%nat = Some (cf exp) /\
+  periodic_pair exp 0 2 0 1 (-1) 1 /\ interior exp 1 0 1 1.
+Proof.
+  split; [vm_compute; reflexivity|].
+  split; repeat split; cbn; intuition discriminate.
 Qed.
